@@ -28,6 +28,25 @@ _SKIP = ('lineno', 'col_offset', 'end_lineno', 'end_col_offset', 'ctx', 'type_co
 _BLOCKS = ('body', 'orelse', 'finalbody', 'handlers')
 
 
+_REF_QUALS = [None]
+
+
+def reference_quals():
+    """qualified names of all functions of the confirmed reference tree"""
+    if _REF_QUALS[0] is None:
+        try:
+            _REF_QUALS[0] = set(json.load(open(REF))['functions'].keys())
+        except Exception:
+            _REF_QUALS[0] = set()
+    return _REF_QUALS[0]
+
+
+def is_new_function(qual):
+    """the function does not exist in the confirmed reference (an extracted helper, if the reference is available at all)"""
+    q = reference_quals()
+    return bool(q) and qual not in q
+
+
 def own_locals(fn):
     """names bound in the function's own scope: parameters, stores, loop/comprehension/with/except targets (not nested defs)"""
     out = set()
@@ -256,6 +275,63 @@ def _quiet(node):
     return True
 
 
+def _int_evident(name, fn):
+    """every binding of the local is visibly an integer: a loop variable over range(...), the counter of enumerate(...), len(...),
+    an integer constant, or integer arithmetic of such names"""
+    found = False
+    for n in ast.walk(fn):
+        if isinstance(n, ast.For):        # (comprehension variables live in their own scope)
+            tgt, it = n.target, n.iter
+            names = [x.id for x in ast.walk(tgt) if isinstance(x, ast.Name)]
+            if name not in names:
+                continue
+            if isinstance(tgt, ast.Name) and isinstance(it, ast.Call) and isinstance(it.func, ast.Name) and it.func.id == 'range':
+                found = True
+                continue
+            if isinstance(tgt, ast.Tuple) and tgt.elts and isinstance(tgt.elts[0], ast.Name) and tgt.elts[0].id == name \
+                    and isinstance(it, ast.Call) and isinstance(it.func, ast.Name) and it.func.id == 'enumerate':
+                found = True
+                continue
+            return False
+        elif isinstance(n, ast.Assign):
+            names = [x.id for t_ in n.targets for x in ast.walk(t_) if isinstance(x, ast.Name) and isinstance(x.ctx, ast.Store)]
+            if name not in names:
+                continue
+            if len(n.targets) == 1 and isinstance(n.targets[0], ast.Name) and (
+                    (isinstance(n.value, ast.Constant) and type(n.value.value) is int) or
+                    (isinstance(n.value, ast.Call) and isinstance(n.value.func, ast.Name) and n.value.func.id == 'len')):
+                found = True
+                continue
+            return False
+        elif isinstance(n, (ast.AugAssign, ast.AnnAssign, ast.NamedExpr, ast.With, ast.arg, ast.ExceptHandler, ast.Import, ast.ImportFrom, ast.Global, ast.Nonlocal)):
+            if isinstance(n, ast.arg) and n.arg == name:
+                return False
+            if any(isinstance(x, ast.Name) and x.id == name and isinstance(x.ctx, ast.Store) for x in ast.walk(n)) and not isinstance(n, ast.With):
+                return False
+            if isinstance(n, ast.With) and any(isinstance(x, ast.Name) and x.id == name and isinstance(x.ctx, ast.Store)
+                                               for it in n.items if it.optional_vars is not None for x in ast.walk(it.optional_vars)):
+                return False
+    return found
+
+
+def _int_arith(e, fn):
+    """integer arithmetic over integer-evident locals and integer constants: its value depends on bindings only"""
+    for x in ast.walk(e):
+        if isinstance(x, ast.Name):
+            if not _int_evident(x.id, fn):
+                return False
+        elif isinstance(x, ast.Constant):
+            if type(x.value) is not int:
+                return False
+        elif isinstance(x, (ast.BinOp, ast.UnaryOp)):
+            pass
+        elif isinstance(x, (ast.Add, ast.Sub, ast.Mult, ast.FloorDiv, ast.Mod, ast.USub, ast.UAdd, ast.Load)):
+            pass
+        else:
+            return False
+    return isinstance(e, (ast.BinOp, ast.UnaryOp, ast.Name, ast.Constant))
+
+
 def _pure_expr(e):
     return not any(isinstance(x, (ast.Call, ast.Await, ast.Yield, ast.YieldFrom, ast.NamedExpr, ast.Lambda, ast.ListComp, ast.GeneratorExp,
                                   ast.SetComp, ast.DictComp)) for x in ast.walk(e))
@@ -312,10 +388,11 @@ def inline_new_temporaries(ref_fn, cur_fn):
                 ok = False
                 break
             # nothing between the definition and the use can change what E denotes
+            arith = _int_arith(d.value, cur_fn)
             for s_, _blocked in resolve._predecessors(st):
                 if s_ is d:
                     break
-                if not _quiet(s_):
+                if not arith and not _quiet(s_):
                     ok = False
                     break
             if not ok:
@@ -327,7 +404,7 @@ def inline_new_temporaries(ref_fn, cur_fn):
                 if isinstance(q, (ast.For, ast.AsyncFor, ast.While, ast.With, ast.AsyncWith, ast.Try, ast.ExceptHandler)):
                     ok = False
                     break
-                if isinstance(q, ast.If) and not _quiet(q.test):
+                if isinstance(q, ast.If) and not arith and not _quiet(q.test):
                     ok = False
                     break
                 q = getattr(q, '_parent', None)
